@@ -872,7 +872,15 @@ bool CWallet::EncryptWallet(const SecureString& strWalletPassphrase)
             encrypted_batch = nullptr;
             return false;
         }
-        encrypted_batch->WriteMasterKey(nMasterKeyMaxID, master_key);
+        if (!encrypted_batch->WriteMasterKey(nMasterKeyMaxID, master_key)) {
+            // Nothing has been encrypted yet: give up before any key is converted, instead of committing
+            // encrypted keys without the master key needed to decrypt them.
+            encrypted_batch->TxnAbort();
+            delete encrypted_batch;
+            encrypted_batch = nullptr;
+            mapMasterKeys.erase(nMasterKeyMaxID--);
+            return false;
+        }
 
         for (const auto& spk_man_pair : m_spk_managers) {
             auto spk_man = spk_man_pair.second.get();
